@@ -170,6 +170,11 @@ func BuildRoot(w *World, root string, lib *OpLib) {
 		// rewards, COMMITTED the EdenB and earned more (claimed, uncommitted) — unstaking / uncommitting
 		// now burns EdenB from the claimed and from the committed balance
 		prefix = []string{"perp_open_long_t1", "perp_open_short_t2", "llp_open_t1_x3", "swap_in_p1_usdc_atom_L", "swap_in_p2_elys_usdc_L", "gap_1d", "mc_claim_lp1", "commit_eden_lp1", "vest_eden_lp1", "stake_elys_lp1", "gap_1d", "estaking_withdraw_lp1", "commit_edenb_lp1", "gap_1d", "estaking_withdraw_lp1"}
+	case "R9":
+		// an ORACLE OUTAGE in progress (third block without a feed: every price has expired, pool TVLs
+		// read 0), during which two external incentives with reward denoms NEW to pool 2 started and a
+		// second account joined that pool; the feed returns with the next ordinary op
+		prefix = []string{"perp_open_long_t1", "perp_open_short_t2", "llp_open_t1_x3", "swap_in_p1_usdc_atom_L", "swap_in_p2_elys_usdc_L", "gap_1d", "mc_claim_lp1", "commit_eden_lp1", "vest_eden_lp1", "stake_elys_lp1", "nofeed", "nofeed", "ext_incentives_two_new_denoms_lp1_nofeed", "nofeed", "join_p2_big_t1_nofeed"}
 	case "R4":
 		// R1 with a large loan outstanding for 30 days under the default every-block sweep: the
 		// interest is booked, so the vault's redemption rate sits visibly above 1 (≈ 1.005)
